@@ -1,6 +1,7 @@
 package main
 
 import (
+	. "verifharness/ghlib"
 	"encoding/json"
 	"net"
 	"sort"
@@ -11,7 +12,7 @@ import (
 	"tkestack.io/galaxy/pkg/utils/nets"
 )
 
-func init() { subcommands["nets"] = netsCase }
+func init() { Subcommands["nets"] = netsCase }
 
 func ipnetPair(n *net.IPNet) []interface{} {
 	ones, _ := n.Mask.Size()
@@ -33,10 +34,10 @@ func poolObs(p *floatingip.FloatingIPPool) map[string]interface{} {
 }
 
 func netsCase(c map[string]interface{}) map[string]interface{} {
-	switch str(c, "op") {
+	switch Str(c, "op") {
 	case "parse_range":
-		return guarded(5*time.Second, func() map[string]interface{} {
-			r := nets.ParseIPRange(str(c, "s"))
+		return Guarded(5*time.Second, func() map[string]interface{} {
+			r := nets.ParseIPRange(Str(c, "s"))
 			if r == nil {
 				return map[string]interface{}{"res": "ok", "some": false}
 			}
@@ -56,9 +57,9 @@ func netsCase(c map[string]interface{}) map[string]interface{} {
 		})
 	case "pool":
 		// text: JSON text of ONE pool object; probes: addresses for Contains; enum: bool
-		return guarded(8*time.Second, func() map[string]interface{} {
+		return Guarded(8*time.Second, func() map[string]interface{} {
 			var p floatingip.FloatingIPPool
-			if err := json.Unmarshal([]byte(str(c, "text")), &p); err != nil {
+			if err := json.Unmarshal([]byte(Str(c, "text")), &p); err != nil {
 				return map[string]interface{}{"res": "err", "err": err.Error()}
 			}
 			o := map[string]interface{}{"res": "ok", "pool": poolObs(&p), "size": p.Size()}
@@ -87,9 +88,9 @@ func netsCase(c map[string]interface{}) map[string]interface{} {
 			if b, _ := c["enum"].(bool); b {
 				// enumeration as galaxy-ipam does it: ConfigurePool walks the ranges into its tables.
 				// Own watchdog: a walk that never returns must not hide the decoded pool.
-				e := guarded(3*time.Second, func() map[string]interface{} {
+				e := Guarded(3*time.Second, func() map[string]interface{} {
 					var pe floatingip.FloatingIPPool
-					if err := json.Unmarshal([]byte(str(c, "text")), &pe); err != nil {
+					if err := json.Unmarshal([]byte(Str(c, "text")), &pe); err != nil {
 						return map[string]interface{}{"res": "err"}
 					}
 					cli := fakeGalaxyCli.NewSimpleClientset()
@@ -120,9 +121,9 @@ func netsCase(c map[string]interface{}) map[string]interface{} {
 		})
 	case "conf":
 		// text: a whole floatingips array as the ConfigMap carries it; result class only (C18 surface)
-		return guarded(8*time.Second, func() map[string]interface{} {
+		return Guarded(8*time.Second, func() map[string]interface{} {
 			var pools []*floatingip.FloatingIPPool
-			if err := json.Unmarshal([]byte(str(c, "text")), &pools); err != nil {
+			if err := json.Unmarshal([]byte(Str(c, "text")), &pools); err != nil {
 				return map[string]interface{}{"res": "err", "err": err.Error()}
 			}
 			return map[string]interface{}{"res": "ok", "n": len(pools)}
